@@ -34,7 +34,7 @@ def hist(prop, focus=None, q=400, t=20000, s=1500):
 
 
 HOOK_COMMITS = ['8b60f71']
-FIX_COMMITS = ['9968ae8 (C19)', '4e44fa6 (C04)', '1c752d6 (C02)', '0ec6acc (C18)', 'a3c0a98 (C20)', 'be6e20c (C16)', '839495b (C07)']
+FIX_COMMITS = ['36808c6 (C09)', '9968ae8 (C19)', '4e44fa6 (C04)', '1c752d6 (C02)', '0ec6acc (C18)', 'a3c0a98 (C20)', 'be6e20c (C16)', '839495b (C07)']
 NOT_YET = {}
 
 LEVEL_NOTE = ('Trusted: Lean kernel + axioms propext/Classical.choice/Quot.sound; the hand-written model (lean/Esc) and the '
@@ -147,12 +147,12 @@ PROPS = {
                            '(unique node names assumed). The sort itself (sort.Sort on the repo\'s Less) is not modelled: the order it produced is passed as a hint and checked, on every case, to be a sorted permutation. Tie: hist on taint-adding updates and GET order + monitor.',
                 level_note=LEVEL_NOTE),
     'C09': dict(level='proof', module='EscProofs.P.C09', streams=hist('C09'),
-                aspects=['gets', 'updates', 'removals'], monitors=['C09'],
-                theorems=['Esc.P.C09_untouched', 'Esc.P.C09_history', 'Esc.P.C09_uncounted'],
+                aspects=['gets', 'updates', 'removals', 'delta', 'state'], monitors=['C09'],
+                theorems=['Esc.P.C09_untouched', 'Esc.P.C09_history', 'Esc.P.C09_uncounted', 'Esc.P.C09_cache_uncounted', 'Esc.P.C09_lists_uncounted'],
                 technique='Lean 4 theorem (journal anatomy: every node-targeting call names an uncordoned node of the view) + differential correspondence and runtime monitor',
                 level_text='C09_untouched / C09_history: outside dry mode every GET/UPDATE/DELETE/terminate targets an uncordoned node of that scan\'s view, whatever the cordoned nodes carry; '
                            'C09_uncounted: a cordoned node is in none of the working lists (so not in the capacity sum). Tie: hist correspondence on node-targeting calls + monitor. '
-                           'The scale-from-zero size cache is filled from the first listed node before classification (finding T3, see DESIGN.md).',
+                           'C09_cache_uncounted / C09_lists_uncounted: the remembered node size and the working lists are the same whether or not cordoned nodes are listed (defect F8 repaired in 36808c6; regression scenario in corpus/C09).',
                 level_note=LEVEL_NOTE),
     'C10': dict(level='proof', module='EscProofs.P.C10', streams=hist('C10', focus='annot'),
                 aspects=['removals'], monitors=['C10'],
